@@ -557,6 +557,35 @@ def run_case(case):
         fail('query-raised', 'remove_component(e, object) on builtin '
              'components raised', None, repr(ex), -2)
         return _fin(res)
+    # ---- a query type the component classes are only REGISTERED with (abc
+    # virtual subclasses): whether they match is left open ("subclass"),
+    # but has_component, get_component and get give ONE answer
+    import abc
+    virt = abc.ABCMeta('Virtual', (), {})
+    for k, cls in enumerate(comp_classes):
+        if k % 2 == 0:
+            try:
+                virt.register(cls)
+            except TypeError:
+                pass
+    try:
+        listed = {repr(x) for x, _ in w.get(virt)}
+        for e, row in comps:
+            missing = object()
+            answers = (w.has_component(e, virt),
+                       w.get_component(e, virt, missing) is not missing,
+                       repr(e) in listed)
+            res.stats['queries_checked'] += 3
+            if len(set(answers)) != 1:
+                fail('virtual-subclass-queries-disagree', 'has_component / '
+                     f'get_component / get for entity {e!r} and a type its '
+                     'components are virtual subclasses of', 'one answer',
+                     list(answers), -3)
+                return _fin(res)
+    except Exception as ex:
+        fail('query-raised', 'a query by an abstract base class raised', None,
+             repr(ex), -3)
+        return _fin(res)
     # ---- churn: attach / replace / detach components after the queries
     # above, then every get(T) again (query results must not go stale)
     for ei, k, *how in case.get('churn', []):
